@@ -233,7 +233,8 @@ Qed.
 
 Lemma pres_do_close : Pres do_close.
 Proof.
-  unfold do_close. pres_auto.
+  unfold do_close, close_source, close_demand, close_stream. pres_auto.
+  all: try (let t := fresh "t" in apply pres_modify_frame; intros t; destruct t; split; reflexivity).
   all: intros s; unfold PresAt; cbn beta;
     repeat match goal with
            | |- context [if ?c then _ else _] => destruct c
